@@ -10,6 +10,8 @@ use pg::Graph;
 use pv::fl::Fl;
 use pv::{json, Collector, Ctx, Mode, Tier, Value};
 
+mod ints;
+
 fn same<T: Fl>(a: T, b: T) -> bool {
     a.bits64() == b.bits64() || a.to64() == b.to64()
 }
@@ -52,9 +54,20 @@ where
         palette::cast::from_array(a)
     };
     let to = |c: C| -> Vec<T> { palette::cast::into_array(c).to_vec() };
+    mk_ft(name, N, bounds, coupled, from, to)
+}
+
+/// like `mk`, for types without `ArrayCast` (the full `Cam16`): components through struct fields
+fn mk_ft<C, T, F, G>(name: &str, n: usize, bounds: Vec<(usize, T, Option<T>)>, coupled: bool, from: F, to: G) -> Spec<T>
+where
+    T: Fl + palette::stimulus::Stimulus + palette::num::PartialCmp<Mask = bool> + palette::num::Clamp + palette::num::ClampAssign + Clone,
+    C: Clamp + ClampAssign + IsWithinBounds<Mask = bool> + Copy + 'static,
+    F: Fn(&[T]) -> C + Copy + Sync + 'static,
+    G: Fn(C) -> Vec<T> + Copy + Sync + 'static,
+{
     Spec {
         name: name.to_string(),
-        n: N,
+        n,
         bounds,
         coupled,
         clamp: Box::new(move |v| to(from(v).clamp())),
@@ -120,6 +133,15 @@ macro_rules! specs_for {
         v.push(mk::<VonKriesLms<D65, T>, T, 3>("Lms", vec![(0, VonKriesLms::<D65, T>::min_long(), None), (1, VonKriesLms::<D65, T>::min_medium(), None), (2, VonKriesLms::<D65, T>::min_short(), None)], false));
         let z: T = 0.0;
         // CAM16: the documented lower bound of every attribute is zero, there is no upper bound
+        // the full CAM16 colour has no ArrayCast: [lightness, chroma, hue, brightness, colorfulness, saturation]
+        v.push(mk_ft::<Cam16<T>, T, _, _>(
+            "Cam16",
+            6,
+            vec![(0, z, None), (1, z, None), (3, z, None), (4, z, None), (5, z, None)],
+            false,
+            |v: &[T]| Cam16 { lightness: v[0], chroma: v[1], hue: palette::hues::Cam16Hue::new(v[2]), brightness: v[3], colorfulness: v[4], saturation: v[5] },
+            |c: Cam16<T>| vec![c.lightness, c.chroma, c.hue.into_inner(), c.brightness, c.colorfulness, c.saturation],
+        ));
         v.push(mk::<Cam16Jch<T>, T, 3>("Cam16Jch", vec![(0, z, None), (1, z, None)], false));
         v.push(mk::<Cam16Jmh<T>, T, 3>("Cam16Jmh", vec![(0, z, None), (1, z, None)], false));
         v.push(mk::<Cam16Jsh<T>, T, 3>("Cam16Jsh", vec![(0, z, None), (1, z, None)], false));
@@ -569,6 +591,15 @@ fn replay(c: &mut Collector, rep: &Value) {
             }
             with_graph!(group.as_str(), float.as_str(), |g| go(&g, &path, &b, c));
         }
+        "integer" => {
+            // small complete spaces: the whole sub-check is re-run and only the replayed signature kept
+            let ctx = Ctx { only: Some("integer".into()), ..Ctx::from_args("C03").0 };
+            let mut all = Collector::new();
+            ints::run(&ctx, &mut all);
+            let want = rep["signature"].as_str().unwrap_or("").to_string();
+            all.viol.retain(|k, _| *k == want);
+            c.merge(all);
+        }
         "edge-buffer" => {
             let group = case["group"].as_str().unwrap_or("").to_string();
             let path: Vec<String> = case["path"].as_array().map(|a| a.iter().map(|x| x.as_str().unwrap_or("").to_string()).collect()).unwrap_or_default();
@@ -617,6 +648,7 @@ fn real_main() -> i32 {
         return ctx.finish_replay(c);
     }
     let mut total = Collector::new();
+    ints::run(&ctx, &mut total);
     run_types::<f32>(&ctx, &specs_for!(f32), &mut total);
     run_types::<f64>(&ctx, &specs_for!(f64), &mut total);
     let dense = ctx.tier == Tier::Thorough;
